@@ -1,0 +1,46 @@
+//go:build verif
+
+// Contracts for the tss-lib adapter, read by /verif's govc (comment-only; no declarations). The library itself is not
+// under contract: its calls return unconstrained values; math/big has a small value model (NewInt, Cmp, Uint64).
+// The classification tables (msgURL2Round, broadcastMessages) are checked row by row against the routing declared in
+// the library's message constructors by govc's table engine ("tables:eddsa" in specs/props.json).
+
+package ecdsa
+
+//@ // the receiver classifies from the bytes alone: the result is read off the two tables by the message's type URL
+//@ func (*party).ClassifyMsg
+//@   props C19 C04
+//@   requires p.logger != nil && msgURL2Round != nil
+//@   at return:
+//@     assert [by-table] result.2 == nil ==> result.1 == (msg.TypeUrl in broadcastMessages) &&
+//@                         result.0 == ite(ite(msg.TypeUrl in msgURL2Round, msgURL2Round[msg.TypeUrl], 0) > 4,
+//@                                         ite(msg.TypeUrl in msgURL2Round, msgURL2Round[msg.TypeUrl], 0) - 4,
+//@                                         ite(msg.TypeUrl in msgURL2Round, msgURL2Round[msg.TypeUrl], 0))
+//@
+//@ // sender binding: a message is handed to the protocol only if its embedded sender is the transport-authenticated one, and
+//@ // every embedded sender in the 16-bit range that equals the transport sender is handed over
+//@ func (*party).OnMsg
+//@   props C19 C10
+//@   requires p.logger != nil
+//@   ghost-var sent bool
+//@   ghost-var parsed bool
+//@   on-call msg.GetFrom():
+//@     ghost parsed = true
+//@   on-send p.in(v):
+//@     assert [sender-bound] claimedFrom == from && key != nil && 0 <= bigval(key) ==> bigval(key) == from
+//@     assert [bound]        claimedFrom == from
+//@     ghost sent = true
+//@   at return:
+//@     assert [valid-sender-accepted] parsed && key != nil && 0 <= bigval(key) && bigval(key) <= 65535 && bigval(key) == from ==> sent
+//@
+//@ // a signature is returned only for the digest the caller asked to sign: every successful return has passed the comparison
+//@ // of the signed message with the requested one
+//@ func (*party).Sign
+//@   props C19 C11
+//@   requires p.logger != nil
+//@   ghost-var compared bool
+//@   on-call bytes.Equal(a, b):
+//@     assert [signed-message] same(a, sigOut.M)
+//@     ghost compared = true
+//@   at return:
+//@     assert [requested-digest] result.1 == nil ==> compared
